@@ -326,10 +326,10 @@ impl PScenario {
             n = rng.range(3, 64);
         }
         // rarely: a long input (up to 10^6 in thorough), where chunk sizes pass 2^16
-        let long = rng.below(1500) == 0;
+        let long = rng.below(2000) == 0;
         if long {
             let hi: f64 = 1_000_000.0;
-            n = (10_000.0 * (hi / 10_000.0).powf(rng.f())) as usize;
+            n = if rng.chance(0.3) { (10_000.0 * (hi / 10_000.0).powf(rng.f())) as usize } else { rng.range(300_000, 1_000_000) };
             st.bump("probe.long_input_ge_10k");
         }
         let (d, m) = gen::scalar_c01(&mut rng, n);
@@ -340,9 +340,11 @@ impl PScenario {
         }
         if long {
             cfg.policy = match rng.below(10) {
-                0..=5 => Policy::Length,
-                6..=7 => Policy::Balanced,
-                _ => Policy::Lopsided,
+                0..=2 => Policy::Length,
+                3 => Policy::Balanced,
+                4 => Policy::Lopsided,
+                // a dozen chunks of very unequal, non-round sizes
+                _ => Policy::Composition,
             };
             cfg.threads = rng.pick(&[1usize, 2, 3, 4, 8]);
             cfg.min_len = if rng.chance(0.5) { 1 } else { rng.range(1000, 70_000) };
